@@ -157,6 +157,11 @@ def oracle(sc, out):
                         fails.append("the stored private key does not match the returned public key")
                     if mine[0]["counter"] != 0:
                         fails.append("U2F credential stored without counter 0")
+                    # U2F registration saves with rk = false: on a store that is not forced-discoverable the credential is
+                    # not discoverable and stores no user handle (C11's storage rule applied to this entry point)
+                    if "ref" in kind and sc["store"].get("disc", "full") != "forced" and mine[0]["user_handle"] is not None:
+                        fails.append("a U2F registration (rk=false) stored a user handle although the credential is not discoverable "
+                                     "under the store's capability %s" % sc["store"].get("disc", "full"))
                 # everything else in the store is untouched (one-slot store: replaced)
                 if kind not in ("option", "arc_mutex_option"):
                     before_other = [p for p in content if p["cred_id"] != op["handle"]]
